@@ -25,7 +25,7 @@ LEVEL = "exploration"
 RULE = ("scenario = version (none / supported / cutoff +-1 day,month,year / random dddd-dd-dd 1990..2199) set by handshake or setter, "
         "+ server lines (single messages and batch arrays of 0..4 valid/invalid members, chunked) + version changes mid-connection; "
         "non-trivial = at least one batch array was processed; distinct also varies with the version stratum")
-PROBES = ["transport_object_reentered_after_versioned_connection", "notification_side_stream_full", "handshake_counter_proposal", "rejection_while_outgoing_saturated", "legacy_request_streams_registered", "batch_rejected", "batch_accepted", "version_change_same_instant_as_batch", "mode_flipped_mid_connection",
+PROBES = ["batch_sent_right_after_initialized_was_read", "transport_object_reentered_after_versioned_connection", "notification_side_stream_full", "handshake_counter_proposal", "rejection_while_outgoing_saturated", "legacy_request_streams_registered", "batch_rejected", "batch_accepted", "version_change_same_instant_as_batch", "mode_flipped_mid_connection",
           "invalid_member_dropped", "empty_batch", "handshake_set_version", "cutoff_neighbour_version"]
 TIERS = {"quick": {"runs": 15000, "wall": 45.0}, "thorough": {"runs": 1000000, "wall": 560.0}}
 ASSUMPTIONS = [
@@ -91,6 +91,10 @@ def member_json(m):
             "id_object": {"jsonrpc": "2.0", "id": {"k": k}, "method": "roots/list"}}[m["invalid"]]
 
 
+BOI_BATCH = [{"jsonrpc": "2.0", "method": "notifications/message", "params": {"data": "boi-a"}},
+             {"jsonrpc": "2.0", "method": "notifications/message", "params": {"data": "boi-b"}}]
+
+
 def _prelude_note(q):
     return {"jsonrpc": "2.0", "method": "notifications/progress", "params": {"progressToken": "p", "progress": q}}
 
@@ -121,19 +125,31 @@ def generate(rng: random.Random, tier: str) -> dict:
     saturate_draw = rng.random() < 0.08
     if saturate_draw:
         changes = []  # the reader may stay blocked behind the full pipe for a long time: keep the mode constant so "mode when processed" is well defined
-    return {"v": 1, "setup": setup, "v0": v0, "lines": lines, "changes": changes, "uuid_seed": rng.getrandbits(40),
+    return _finish({"v": 1, "setup": setup, "v0": v0, "lines": lines, "changes": changes, "uuid_seed": rng.getrandbits(40),
             "legacy_streams": rng.choice([None, None, None, "open", "closed"]),
             # handshake only: the client proposes another version and the server counter-proposes v0 (both in the client's list)
             "proposed_other": (rng.choice(["2025-06-18", "2025-03-26", "2024-11-05", "2025-06-17", "2026-01-01"]) if setup == "handshake" and rng.random() < 0.5 else None),
             "big_frame": rng.random() < 0.5,
+            "batch_on_initialized": (rng.choice([0, 1, 10, 40]) if setup == "handshake" and rng.random() < 0.3 else None),
             # through the Transport wrapper, possibly re-entered after an earlier connection that had negotiated another version
             "via_transport": ({"earlier_version": rng.choice([None, "2025-06-18", "2025-06-18", "2025-03-26", "2026-01-01"])} if rng.random() < 0.2 else None),
             # nobody reads StdioClient.notifications (stdio_client() does not even expose it) and >= 100 notifications arrived earlier
             "undrained": (rng.choice([99, 100, 101, 120]) if rng.random() < 0.06 else None),
-            "saturate": ({"n": rng.choice([101, 105, 130]), "resume_at": max(ln["t"] for ln in lines) + rng.choice([5, 50, 400])} if saturate_draw else None)}
+            "saturate": ({"n": rng.choice([101, 105, 130]), "resume_at": max(ln["t"] for ln in lines) + rng.choice([5, 50, 400])} if saturate_draw else None)})
+
+
+def _finish(scn):
+    if scn.get("batch_on_initialized") is not None:
+        # keep this family apart from the ones that change what "arrives first" or block the reply path
+        scn["undrained"] = None
+        scn["saturate"] = None
+        scn["legacy_streams"] = None
+    return scn
 
 
 def simplify(scn):
+    if scn.get("batch_on_initialized") is not None:
+        c = copy.deepcopy(scn); c["batch_on_initialized"] = None; yield c
     if scn.get("proposed_other"):
         c = copy.deepcopy(scn); c["proposed_other"] = None; yield c
     if scn.get("saturate"):
@@ -179,6 +195,11 @@ def execute(scn: dict) -> dict:
             if isinstance(o, dict) and o.get("method") == "initialize":
                 res = {"jsonrpc": "2.0", "id": o["id"], "result": {"protocolVersion": scn["v0"], "capabilities": {}, "serverInfo": {"name": "sim", "version": "1"}}}
                 return [(ticks(2), [json.dumps(res).encode() + b"\n"])]
+            if isinstance(o, dict) and o.get("method") == "notifications/initialized" and scn.get("batch_on_initialized") is not None:
+                # the server considers the handshake complete the moment it has read this notification and sends a batch right away
+                st["boi_sent_at"] = sim.now() + ticks(scn["batch_on_initialized"])
+                sim.probe("batch_sent_right_after_initialized_was_read")
+                return [(ticks(scn["batch_on_initialized"]), [json.dumps(BOI_BATCH).encode() + b"\n"])]
             return []
 
         factory = ProcessFactory(sim, lambda idx, argv, env: {"read_mode": "eager", "responder": responder})
@@ -329,7 +350,14 @@ def execute(scn: dict) -> dict:
             poss.add(indep_batching(v))
         return poss, bool(same)
 
+    boi = None
+    if scn.get("batch_on_initialized") is not None and st.get("boi_sent_at") is not None:
+        # once the server has READ notifications/initialized the negotiated version is in force on both sides - whenever the client
+        # library gets round to writing it down
+        boi = ([], 1) if not indep_batching(scn["v0"]) else (list(BOI_BATCH), 0)
     segs = []  # per line: list of alternatives (read_seq, stdin_count)
+    if boi is not None:
+        segs.append([boi])   # arrives before everything else (the other lines start 50 ticks after the handshake)
     if scn.get("undrained"):
         segs.append([([_prelude_note(q) for q in range(scn["undrained"])], 0)])
         if scn["undrained"] >= 100:
